@@ -66,6 +66,29 @@ TIME_DATES = ["", "2000-01-01", "0001-01-01", "9999-12-31", "5000-01-01", "0000-
               "+99999999 years", "-99999999 years", "@99999999999999", "99999999999999999999", "1e400", "-3", "31 December 9999 + 1 day",
               "garbage", "2000-13-45", "12:61", "\x00"]
 
+# OPERATOR CHAINS (Gen.expr_chain_family): the same binary operator applied 3..8 times left-associatively (written plainly,
+# with explicit parentheses, and through a prefix function), the right operand at the extremes of every range in which a
+# SINGLE application is cheap.  A bound on one operand does not bound the result when the left operand is the previous result.
+BIGI = "99999999999999999999"
+CHAIN_OPERANDS = collections.OrderedDict([
+    ("^", ["2", "3", "10", "63", "64", "65", "100", "308", "309", "1023", "1024", "0.5", "-1", "-64", "1e2", BIGI]),
+    ("e", ["1", "2", "22", "64", "100", "308", "309", "-308", "-400", "1000", "99999999"]),
+    ("*", ["2", "10", BIGI, "9" * 300, "9" * 4000, "1.5", "1e308", "-3"]),
+    ("/", ["2", "0.5", "1e-300", BIGI, "3"]),
+    ("div", ["2", "0.5", "1e-300", BIGI, "3"]),
+    ("mod", ["2", "7", BIGI, "1e308", "0.5"]),
+    ("+", ["1", BIGI, "9" * 4000, "1e308", "0.5"]),
+    ("-", ["1", BIGI, "9" * 4000, "1e308", "0.5"]),
+    ("round", ["0", "2", "15", "300", "-2", "-300", "-3000000"]),
+    ("<", ["0", "1", BIGI]), (">", ["0", "1", BIGI]), ("<=", ["0", "1", BIGI]), (">=", ["0", "1", BIGI]),
+    ("!=", ["0", "1", BIGI]), ("<>", ["0", "1", BIGI]), ("=", ["0", "1", BIGI]),
+    ("and", ["0", "1", BIGI]), ("or", ["0", "1", BIGI]),
+])
+CHAIN_BASES = ["2", "9", "10", "1.5", "-2", BIGI, "9" * 300]
+CHAIN_LENGTHS = [3, 4, 5, 6, 8]
+CHAIN_CPU_LIMIT = 3.0
+UNARY_CHAIN_OPERANDS = ["0", "1", "2", "9", "64", "308", "709", "710", "1.5", "-3", BIGI, "1e308", "9" * 300]
+
 DB_DEFAULT = {"t": "{{{1}}}"}
 PAGENAME = "Talk:This/page"
 
@@ -344,6 +367,56 @@ class Gen:
                 args = [e] if fn == "#expr" else [e, "y", "n"]
                 self.add(call_text(fn, args), canon, "magic", len(args), ("expr",), form="expr-random")
 
+    def expr_chain_family(self):
+        """#expr / #ifexpr operator CHAINS: for every binary operator, every base of CHAIN_BASES and every right operand of the
+        operator's CHAIN_OPERANDS, the operator applied k = 3, 4, 5, 6, 8 times: `b op x op x ...` (left-associative), the same
+        with explicit parentheses `((b op x) op x) ...`, through a prefix function `trunc(b op x) op x ...` and with the chain
+        as the right operand of the next link `b op (b op x) ...`; chains of prefix functions `f f f x`; random mixed chains of
+        k (operator, extreme operand) links.  Cost must stay proportional to the length of the text."""
+        rng, thorough = self.rng, self.tier != "quick"
+
+        def emit(e, form, fns=("#expr",)):
+            for fn in fns:
+                args = [e] if fn == "#expr" else [e, "y", "n"]
+                self.add(call_text(fn, args), fn.upper(), "magic", len(args), ("expr-chain",), form=form, cpu_limit=CHAIN_CPU_LIMIT)
+
+        both = ("#expr", "#ifexpr")
+        for op, xs in CHAIN_OPERANDS.items():
+            for b in CHAIN_BASES:
+                for x in xs:
+                    for k in CHAIN_LENGTHS:
+                        sp = " " if op.isalpha() and op != "e" else ""
+                        link = "%s%s%s%s" % (sp, op, sp, x)
+                        emit(b + link * k, "chain", both if (thorough or k == 4) else ("#expr",))
+                        if not thorough and k not in (4, 6):
+                            continue
+                        e = b
+                        for _ in range(k):
+                            e = "(%s%s)" % (e, link)
+                        emit(e, "chain-paren")
+                        emit("trunc(%s%s)%s" % (b, link, link * (k - 1)), "chain-fn")
+                        e = x
+                        for _ in range(k):
+                            e = "%s%s%s%s(%s)" % (b, sp, op, sp, e)
+                        emit(e, "chain-right")
+        for op in EXPR_UNOPS:
+            for x in UNARY_CHAIN_OPERANDS:
+                for k in CHAIN_LENGTHS:
+                    emit(" ".join([op] * k) + " " + x, "chain-unary")
+                    if thorough or k == 4:
+                        emit("(".join([op] * k) + "(" + x + ")" * k, "chain-unary")
+        ops = list(CHAIN_OPERANDS)
+        for _ in range(400 if not thorough else 8000):
+            k = rng.choice(CHAIN_LENGTHS)
+            e = rng.choice(CHAIN_BASES)
+            for _i in range(k):
+                op = rng.choice(ops) if rng.random() < 0.6 else rng.choice(["^", "e", "*"])
+                x = rng.choice(CHAIN_OPERANDS[op])
+                if rng.random() < 0.2:
+                    x = "%s %s" % (rng.choice(EXPR_UNOPS), x)
+                e = "%s %s %s" % (e, op, x) if rng.random() < 0.8 else "(%s) %s %s" % (e, op, x)
+            emit(e, "chain-mixed", (rng.choice(both),))
+
     def time_family(self):
         thorough = self.tier != "quick"
         for f in TIME_FORMATS:
@@ -495,6 +568,7 @@ def generate(rng, tier, src):
     for name, canon, kind in builtins:
         g.recursion_family(name, canon, kind)
     g.expr_family()
+    g.expr_chain_family()
     g.time_family()
     thorough = tier != "quick"
     for a in impl:
@@ -765,7 +839,13 @@ def run(run, src):
                  "thorough: all) at every argument position 0..3 (positional with fillers 1/0/empty, as a named value 1=/#default=/k=, as a "
                  "name ..=1; colon and pipe form), page `s {{A}} e`, recursion limit 100 (+ a sampled limit from 40..150 / thorough: 50, 75, "
                  "150), under a budget of %d x (limit+2) x calls template-call dispatches counted at Expander.resolver; plus every #expr "
-                 "operator over 12x12 numeric operands, #time formats x dates, random #expr token strings, the corpus and %d directed probes "
+                 "operator over 16x16 numeric operands; OPERATOR CHAINS: every binary #expr operator applied 3, 4, 5, 6 and 8 times "
+                 "left-associatively to each of 7 bases (small, decimal, negative, 20- and 300-digit integers) with the right operand at "
+                 "the extremes of every range in which one application is cheap (^ with 2 3 10 63 64 65 100 308 309 1023 1024 0.5 -1 -64 "
+                 "1e2 and a 20-digit exponent; e-notation 1..99999999 and negative; * + - with 4000-digit literals; / div mod round "
+                 "likewise), written plainly, fully parenthesised, through trunc(..) and right-nested; chains of 3..8 prefix functions over "
+                 "13 operands; 400 (thorough 8000) random mixed chains; each under a 3 s CPU cap and the CPU/size oracle proportional to "
+                 "the text; #time formats x dates, random #expr token strings, the corpus and %d directed probes "
                  "(regressions of the fixed defects, 300 KB names/arguments, deep nesting). Of several failing inputs with one fingerprint the "
                  "smallest (input size, then recursion limit) is reported. "
                  "distinct = distinct (site, page text, templates, limit); non-trivial = the called name resolves to a registered function"
